@@ -521,6 +521,10 @@ def real_run(ctx, scene, gids, origins, use_ref, expand, enforce, lines, pending
         ctx.oracle_fail(case, dict({'what': 'after expand_catalog the footprint of the reference catalog (which '
                                             'decides the next overlap) is not the footprint of its rows'}, **b))
         break
+    for b in alignsim.misplaced_footprints(obs):
+        ctx.oracle_fail(case, dict({'what': 'the reference footprint used for the overlap ordering does not contain '
+                                            'the centroid of its own sources'}, **b))
+        break
     # every group is processed exactly once (aligned, or taken as the reference)
     refgroups = [g for g in names if all(status[int(m[2:])] == 'REFERENCE' for m in g)]
     processed = obs.aligned + (refgroups if not use_ref else [])
@@ -759,11 +763,14 @@ def run_real(ctx, lines, pending):
         # without a reference catalog at least two groups are needed (else NotEnoughCatalogs, C13)
         use_ref = rng.random() < 0.5 or len(expected_groups(gids)) < 2
         todo.append((gids, use_ref, rng.random() < 0.7, rng.random() < 0.4))
-    for gids, use_ref, expand, enforce in todo:
+    # every third real run on a mosaic that straddles RA = 0 / 360
+    wrap_seed, wrap_scene = alignsim.scene_with(rng, alignsim.WRAP_POINTS)
+    for k, (gids, use_ref, expand, enforce) in enumerate(todo):
         origins = pick_origins(rng, gids)
         if origins is None:
             continue
-        real_run(ctx, scene, gids, origins, use_ref, expand, enforce, lines, pending, scene_seed)
+        sc, sd = (wrap_scene, wrap_seed) if k % 3 == 1 else (scene, scene_seed)
+        real_run(ctx, sc, gids, origins, use_ref, expand, enforce, lines, pending, sd)
 
 
 def compare_all(ctx, outs, pending):
